@@ -140,6 +140,8 @@ def _classify(ctx, b, tag, detail):
         return False
     if isinstance(e, MPilotError):
         ctx.count("mpilot_errors_seen")
+        if len(ctx.samples) < 6 and (not ctx.samples or ctx.samples[-1].get("tag", "").split(":")[0] != tag.split(":")[0]):
+            ctx.sample({"tag": tag, "escaped": type(e).__name__, "stage": b.stage, "input": {k: (v if not isinstance(v, str) else v[:200]) for k, v in detail.items()}})
         try:
             s = str(e)
             ctx.count("error_messages_rendered")
